@@ -449,7 +449,23 @@ def check_sql(chk: Check) -> None:
     import random
     from concurrent.futures import ThreadPoolExecutor
 
-    res = gen.run_generator("SqlParam", None, None, cfg="SqlParam.cfg")
+    # longer queries than the exhaustive family holds (5..7 conditions), sampled with the seed
+    rnd0 = random.Random(chk.seed + 21)
+    vals = [{"q": True, "items": tuple(it)} for it in ((), ("a",), ("h",), ("a", "h"), ("h", "a"), ("h", "h"))] + [{"q": False, "items": ("h",)}]
+    extra_q = set()
+    for _ in range(chk.pick(40, 400)):
+        q = tuple(rnd0.choice(vals) for _ in range(rnd0.choice((5, 6, 7))))
+        extra_q.add(gen.RawTla("<<" + ", ".join(f'[q |-> {"TRUE" if v["q"] else "FALSE"}, items |-> <<{", ".join(chr(34) + x + chr(34) for x in v["items"])}>>]' for v in q) + ">>"))
+    # ... and every sequence of 5..7 conditions over {'h', 'a', bare hole} (quick: a sample): which quote opens and which
+    # closes depends on the whole history of pieces
+    import itertools
+
+    v3 = ['[q |-> TRUE, items |-> <<"h">>]', '[q |-> TRUE, items |-> <<"a">>]', '[q |-> FALSE, items |-> <<"h">>]']
+    seqs = [gen.RawTla("<<" + ", ".join(c) + ">>") for n_ in (5, 6, 7) for c in itertools.product(v3, repeat=n_)]
+    if chk.quick:
+        seqs = rnd0.sample(seqs, 300)
+    extra_q.update(seqs)
+    res = gen.run_generator("SqlParam", "SqlData", {"ExtraQueries": gen.RawTla("{" + ", ".join(sorted(extra_q)) + "}")}, cfg="SqlParamGen.cfg")
     chk.add_tlc(res)
     cases = [(st["qy"], st["mode"], st["exp"], st["tc"]) for st in res.dump if st["st"] == "done"]
     cases.sort(key=lambda x: json.dumps(expr.canon([x[0], x[1], x[3]]), sort_keys=True, default=str))
@@ -463,9 +479,9 @@ def check_sql(chk: Check) -> None:
             if built is None:
                 continue
             progs.append((qy, mode, form, e, built[0], tc))
-    n = chk.pick(260, len(progs))
+    n = chk.pick(520, len(progs))
     if n < len(progs):
-        one = [x for x in progs if len(x[0]) == 1 and (x[5] == "a" or x[1] == "none")]
+        one = [x for x in progs if (len(x[0]) == 1 and (x[5] == "a" or x[1] == "none")) or (len(x[0]) >= 5 and x[5] == "a" and x[1] == "none" and x[2] == "concat")]
         two = [x for x in progs if x not in one]
         progs = one + rnd.sample(two, max(0, min(len(two), n - len(one))))
     files = {f"q{i:04d}.py": pr[4] for i, pr in enumerate(progs)}
